@@ -69,11 +69,11 @@ func digitValue(chr rune) int {
 
 func builtinGlobalParseInt(call FunctionCall) Value {
 	input := strings.Trim(call.Argument(0).string(), builtinStringTrimWhitespace)
+	// ES5 15.1.2.2 step 6: the radix is converted whatever the string turns out to be.
+	radix := int(toInt32(call.Argument(1)))
 	if len(input) == 0 {
 		return NaNValue()
 	}
-
-	radix := int(toInt32(call.Argument(1)))
 
 	negative := false
 	switch input[0] {
